@@ -83,7 +83,7 @@ pub fn normalize_http<T>(result: Result<T, IggyError>) -> Result<T, IggyError> {
 macro_rules! routed {
     ($h:expr, $c:expr, $method:ident ( $($arg:expr),* $(,)? )) => {{
         if $h.route_http($c) {
-            let result = $h.http0.as_ref().unwrap().$method($($arg),*).await;
+            let result = $h.http_twin($c).unwrap().$method($($arg),*).await;
             $h.stats.probe("request_via_http");
             $crate::harness::normalize_http(result)
         } else {
@@ -107,6 +107,8 @@ pub struct Harness {
     pub fresh_id: u64,
     pub snapshot_horizon: Option<u64>,
     pub http0: Option<iggy::http::client::HttpClient>,
+    /// HTTP twins of the other connections: (user the twin is logged in as, client)
+    pub http_twins: BTreeMap<usize, (u32, iggy::http::client::HttpClient)>,
     pub http_rng: crate::rng::Rng,
     pub log: Vec<String>,
     pub verbose: bool,
@@ -216,6 +218,7 @@ impl Harness {
             fresh_id: 0,
             snapshot_horizon: None,
             http0: None,
+            http_twins: BTreeMap::new(),
             http_rng: crate::rng::Rng::substream(0x4854_5450, "http-route"),
             log: Vec::new(),
             verbose: std::env::var("VERIF_VERBOSE").is_ok(),
@@ -387,8 +390,45 @@ impl Harness {
     }
 
     /// Does this call of connection `c` go over HTTP? (the administrator only, by a coin of its own stream)
+    pub fn http_twin(&self, c: usize) -> Option<&iggy::http::client::HttpClient> {
+        if c == 0 {
+            self.http0.as_ref()
+        } else {
+            self.http_twins.get(&c).map(|t| &t.1)
+        }
+    }
+
+    /// Keeps the HTTP twin of connection `c` logged in as the user the connection's session belongs to (the
+    /// model knows every password). A session whose user cannot log in any more (deactivated, deleted) has no
+    /// twin: its JWT could not be obtained now.
+    async fn sync_http_twin(&mut self, c: usize) {
+        if !self.opts.http_arm || c == 0 || self.http0.is_none() {
+            return;
+        }
+        let uid = self.model.sessions.get(c).filter(|s| s.connected).map(|s| s.user).unwrap_or(0);
+        if self.http_twins.get(&c).map(|t| t.0) == Some(uid) {
+            return;
+        }
+        self.http_twins.remove(&c);
+        let Some(user) = self.model.users.get(&uid).cloned() else { return };
+        if !user.active {
+            return;
+        }
+        let Ok(http) = iggy::http::client::HttpClient::create(Arc::new(iggy::http::config::HttpClientConfig { api_url: "http://sim".into(), retries: 0 })) else { return };
+        match http.login_user(&user.name, &user.password).await {
+            Ok(identity) => {
+                if identity.user_id != uid {
+                    self.violate("C10", "login_identity", "http_wrong_user_id", format!("HTTP login as {} returned user id {}, model says {uid}", user.name, identity.user_id));
+                }
+                self.stats.probe("http_user_login");
+                self.http_twins.insert(c, (uid, http));
+            }
+            Err(e) => self.violate("C10", "valid_credentials_accepted", "http_login_refused", format!("HTTP login of active user {} with its current password failed: {e:?}", user.name)),
+        }
+    }
+
     pub fn route_http(&mut self, c: usize) -> bool {
-        let via_http = c == 0 && self.http0.is_some() && self.http_rng.chance(0.5);
+        let via_http = self.http_twin(c).is_some() && self.http_rng.chance(0.5);
         if via_http && self.verbose {
             eprintln!("[op {}] -> over HTTP", self.op_index);
         }
@@ -434,6 +474,9 @@ impl Harness {
             eprintln!("[op {}] {:?}", self.op_index, op);
         }
         self.perm_verdict = None;
+        if let Some(c) = op_client(op) {
+            self.sync_http_twin(c).await;
+        }
         if let Some(c) = op_client(op) {
             let user = self.model.sessions.get(c).map(|s| s.user).unwrap_or(0);
             if user > 1 {
@@ -607,7 +650,7 @@ impl Harness {
         let result = if self.route_http(c) {
             self.stats.probe("request_via_http");
             self.stats.probe("send_via_http");
-            normalize_http(self.http0.as_ref().unwrap().send_messages(&stream.to_identifier(), &topic.to_identifier(), &partitioning, &mut messages).await)
+            normalize_http(self.http_twin(c).unwrap().send_messages(&stream.to_identifier(), &topic.to_identifier(), &partitioning, &mut messages).await)
         } else {
             self.client(c).unwrap().send_messages(&stream.to_identifier(), &topic.to_identifier(), &partitioning, &mut messages).await
         };
@@ -897,7 +940,7 @@ impl Harness {
         let result = if matches!(who, Who::Consumer(_)) && self.route_http(c) {
             self.stats.probe("request_via_http");
             self.stats.probe("poll_via_http");
-            normalize_http(self.http0.as_ref().unwrap().poll_messages(&stream.to_identifier(), &topic.to_identifier(), partition, &consumer, &strategy, count, auto_commit).await)
+            normalize_http(self.http_twin(c).unwrap().poll_messages(&stream.to_identifier(), &topic.to_identifier(), partition, &consumer, &strategy, count, auto_commit).await)
         } else {
             self.client(c).unwrap().poll_messages(&stream.to_identifier(), &topic.to_identifier(), partition, &consumer, &strategy, count, auto_commit).await
         };
@@ -1103,7 +1146,7 @@ impl Harness {
         };
         let result = if matches!(who, Who::Consumer(_)) && self.route_http(c) {
             self.stats.probe("request_via_http");
-            normalize_http(self.http0.as_ref().unwrap().store_consumer_offset(&consumer, &stream.to_identifier(), &topic.to_identifier(), partition, offset).await)
+            normalize_http(self.http_twin(c).unwrap().store_consumer_offset(&consumer, &stream.to_identifier(), &topic.to_identifier(), partition, offset).await)
         } else {
             self.client(c).unwrap().store_consumer_offset(&consumer, &stream.to_identifier(), &topic.to_identifier(), partition, offset).await
         };
@@ -1171,7 +1214,7 @@ impl Harness {
         };
         let result = if matches!(who, Who::Consumer(_)) && self.route_http(c) {
             self.stats.probe("request_via_http");
-            normalize_http(self.http0.as_ref().unwrap().get_consumer_offset(&consumer, &stream.to_identifier(), &topic.to_identifier(), partition).await)
+            normalize_http(self.http_twin(c).unwrap().get_consumer_offset(&consumer, &stream.to_identifier(), &topic.to_identifier(), partition).await)
         } else {
             self.client(c).unwrap().get_consumer_offset(&consumer, &stream.to_identifier(), &topic.to_identifier(), partition).await
         };
@@ -1232,7 +1275,7 @@ impl Harness {
         };
         let result = if matches!(who, Who::Consumer(_)) && self.route_http(c) {
             self.stats.probe("request_via_http");
-            normalize_http(self.http0.as_ref().unwrap().delete_consumer_offset(&consumer, &stream.to_identifier(), &topic.to_identifier(), partition).await)
+            normalize_http(self.http_twin(c).unwrap().delete_consumer_offset(&consumer, &stream.to_identifier(), &topic.to_identifier(), partition).await)
         } else {
             self.client(c).unwrap().delete_consumer_offset(&consumer, &stream.to_identifier(), &topic.to_identifier(), partition).await
         };
@@ -1341,6 +1384,7 @@ impl Harness {
         self.snapshot_horizon = None;
         let before = if quiesce { Some(crate::snapshot::take(self).await) } else { None };
         self.http0 = None;
+        self.http_twins.clear();
         // drop client connections first: the server sees them close
         for c in 0..self.clients.len() {
             self.clients[c] = None;
